@@ -79,6 +79,6 @@ Example complex_prints :
   show_complex (f_of_Z 3) (f_of_Z (-1)) = [51; 45; 105]%N                                   (* 3-i *)
   /\ show_complex (S754_zero false) (f_of_Z 2) = [50; 105]%N                                (* 2i *)
   /\ show_complex (f_of_Z 1) (S754_zero true) = [49; 43; 48; 105]%N                          (* 1+0i *)
-  /\ show_complex (fdiv (f_of_Z 1) (f_of_Z 2)) (f_of_Z 1) = [70; 49; 112; 45; 49; 43; 105]%N. (* 0.5+i, the real part in the harness's canonical form F1p-1 *)
+  /\ show_complex (fdiv (f_of_Z 1) (f_of_Z 2)) (f_of_Z 1) = [48; 46; 53; 43; 105]%N.                 (* 0.5+i *)
 Proof. repeat split; vm_compute; reflexivity. Qed.
 Print Assumptions sum_widens_only_when_needed. Print Assumptions complex_eq_real. Print Assumptions product_widens_only_when_needed.
